@@ -1,12 +1,14 @@
-(* C01 - Invoice totals: structure of the calculation and, under the 'precise' rule, the distance
-   of presented totals from the exact value.
-   Property theorems only; every proof is `exact <lemma>` from Calc/BoundProofs.v (or reflexivity
-   for the model's constants).  The statements are about the calculation model Calc/Calc.v, tied to
+(* C01 - Invoice totals: every calculated figure equals a declarative specification over the
+   rationals (Calc/Ideal.v) for EVERY document, and, under the 'precise' rule, the distance of the
+   presented totals from the unrounded exact value.
+   Property theorems only; every proof is `exact <lemma>` from Calc/IdealProofs.v,
+   Calc/IdealBoundProofs.v, Calc/BoundProofs.v (or reflexivity for the model's constants).  The statements are about the calculation model Calc/Calc.v, tied to
    bill/calculator.go, bill/line_calculate.go by the differential check tools/props/c01.py.
    toQ a is the rational an amount denotes, roundQ e q is q rounded half away from zero to e
    decimals, unitQ e = 10^-e (one unit of the e-th decimal; unitQ c is one minor currency unit). *)
 From Coq Require Import ZArith QArith Qabs List Bool.
-From Verif Require Import Base.Rha Num.Amount Num.AmountProofs Calc.Doc Calc.Calc Calc.BoundProofs.
+From Verif Require Import Base.Rha Num.Amount Num.AmountProofs Calc.Doc Calc.Calc Calc.BoundProofs
+  Calc.Ideal Calc.IdealProofs Calc.IdealBoundProofs.
 Import ListNotations.
 Open Scope Q_scope.
 
@@ -24,9 +26,97 @@ Theorem tax_precision_extra_is_2 : tax_precision_extra = 2%nat.
 Proof. reflexivity. Qed.
 Print Assumptions tax_precision_extra_is_2.
 
+(* ------------------------------------------------------------------------------------------ *)
+(* FULL CLAIM, first sentence: every figure equals exact decimal arithmetic with rounding half  *)
+(* away from zero at the stated points - for EVERY document                                     *)
+(* ------------------------------------------------------------------------------------------ *)
+(* Calc/Ideal.v is the declarative specification: `ideal d` gives, for each figure the property
+   names, a formula over Q in the supplied quantities, prices, percentages and exchange rates in
+   which `rnd e` (round half away from zero to e decimals) occurs only at the rounding points, and
+   the number of decimals each figure is held at (a `fig` = value fq + decimals fp).
+   `den a f` : the amount a denotes exactly the figure f (toQ a == fq f) and has fp f decimals.
+   `pres c a q` : a denotes q and has c decimals.  `refines c t it` : every presented figure of t
+   (lines: price, sum, total, discount / charge rows, sub-lines; sum, discount, charge, tax
+   included, total, tax, total with tax, payable, advances, due; discount / charge / advance / due
+   rows) is the corresponding figure of it.
+   No restriction on the document: any lines, breakdowns, signs, line and document discounts and
+   charges (fixed, percentage, with and without base, rate x quantity), foreign-currency items,
+   taxes (included or not, retained, surcharges), advances, due dates, both rounding rules, any c. *)
+Theorem calc_refines_ideal d t : calculate d = Totals t ->
+  exists it, ideal d = Some it /\ refines (d_c d) t it.
+Proof. exact (IdealProofs.calc_refines_ideal d t). Qed.
+Print Assumptions calc_refines_ideal.
+
+(* each line by itself (also when the document as a whole has no totals): price, sum, total,
+   every discount and charge row and every sub-line denote the ideal figures, or both fail *)
+Theorem line_figures_are_ideal cr c cur rates l :
+  orel line_den (calc_line cr c cur rates l) (s_line rnd cr c cur rates l).
+Proof. exact (calc_line_refines cr c cur rates l). Qed.
+Print Assumptions line_figures_are_ideal.
+
+(* 3 x 0.3333 less 10% plus 0.125; a line priced by its breakdown with a 3-per-unit charge on 0.5
+   units; 5% document discount, 1.00 document charge; 21% tax; 50% advance; 50% due *)
+Definition c01_rich_doc : doc :=
+  let vat := mkCombo [Byte.x56] [] [] (Some (mkA 21 2)) None false [] in
+  mkDoc 2 false [] 1
+   [mkLine (mkA 3 0) (mkItem (mkA 3333 4) None []) []
+           [mkLdc (mkA 0 0) (Some (mkA 10 2)) None None None] [mkLdc (mkA 125 3) None None None None] [vat];
+    mkLine (mkA 7 0) (mkItem (mkA 1005 3) None []) [mkSub (mkA 2 0) (mkItem (mkA 1005 3) None []) [] []] []
+           [mkLdc (mkA 0 0) None None (Some (mkA 3 0)) (Some (mkA 5 1))] [vat]]
+   [mkDdc (mkA 0 0) (Some (mkA 5 2)) None [vat]] [mkDdc (mkA 100 2) None None []] []
+   [mkProw (mkA 0 0) (Some (mkA 50 2))] [mkProw (mkA 0 0) (Some (mkA 50 2))] None.
+
+Example calc_refines_ideal_applies :
+  exists t it, calculate c01_rich_doc = Totals t /\ ideal c01_rich_doc = Some it /\
+    t_sum t = mkA 1709 2 /\ t_discount t = Some (mkA 85 2) /\ t_charge t = Some (mkA 100 2) /\
+    t_total t = mkA 1724 2 /\ t_tax t = mkA 341 2 /\ t_twt t = mkA 2065 2 /\ t_due t = Some (mkA 1033 2) /\
+    i_total it == 1724 # 100 /\ i_tax it == 341 # 100 /\ i_twt it == 2065 # 100.
+Proof.
+  eexists. eexists. split; [vm_compute; reflexivity|]. split; [vm_compute; reflexivity|].
+  repeat split.
+Qed.
+
+(* ------------------------------------------------------------------------------------------ *)
+(* where the rounding points of the implementation are NOT the documented ones                  *)
+(* ------------------------------------------------------------------------------------------ *)
+(* far_from_exact d: 'precise' rule, at most one line, and the presented total is at least one
+   full minor unit away from the unrounded exact value (exact d = the specification with no
+   rounding at all).  Three independent causes, each replayed against the Go code:
+   rate x quantity charges are rounded at the decimals of the RATE (12.00 presented, 11.50 exact);
+   a price converted by an exchange rate is rounded to the currency's decimals before it is
+   multiplied by the quantity (920.00 / 915.00); the price of a line with a breakdown is rounded
+   to the decimals of the sub-line prices (10.00 / 5.00). *)
+Theorem precise_error_bound_unrestricted_refuted :
+  exists d, d_currency_rule d = false /\ (length (d_lines d) <= 1)%nat /\
+    exists t x, calculate d = Totals t /\ exact d = Some x /\
+      unitQ (d_c d) <= Qabs (toQ (t_total t) - i_total x).
+Proof. exact IdealBoundProofs.precise_error_bound_unrestricted_refuted. Qed.
+Print Assumptions precise_error_bound_unrestricted_refuted.
+
+Theorem rate_charge_rounded_at_rate_decimals_refuted : far_from_exact w_rate_charge.
+Proof. exact w_rate_charge_far. Qed.
+Print Assumptions rate_charge_rounded_at_rate_decimals_refuted.
+
+Theorem converted_price_rounded_before_multiplying_refuted : far_from_exact w_exchange.
+Proof. exact w_exchange_far. Qed.
+Print Assumptions converted_price_rounded_before_multiplying_refuted.
+
+Theorem breakdown_price_rounded_before_multiplying_refuted : far_from_exact w_breakdown.
+Proof. exact w_breakdown_far. Qed.
+Print Assumptions breakdown_price_rounded_before_multiplying_refuted.
+
+(* under 'currency' a line sum is not the product rounded ONCE to the currency's decimals when the
+   price has more decimals than the currency: 0.05 x 0.0999 gives 0.01, rounded once 0.00 *)
+Theorem currency_line_sum_single_rounding_refuted :
+  exists l lc, plain_line l /\ calc_line true 2 1 [] l = Some lc /\
+    val (lc_sum lc) <> roundQ 2 (toQ (it_price (ln_item l)) * toQ (ln_qty l)).
+Proof. exact IdealBoundProofs.currency_line_sum_single_rounding_refuted. Qed.
+Print Assumptions currency_line_sum_single_rounding_refuted.
+
 (* plain_line l: no breakdown, no line discounts / charges, no taxes, item priced in the document
    currency.  line_price c l: the price raised to at least c + 2 decimals (value unchanged).
-   Partial: lines with sub-lines, discounts, charges or a currency conversion are not covered. *)
+   Partial: lines with sub-lines, discounts, charges or a currency conversion are not covered by
+   THIS statement; line_figures_are_ideal above covers every line. *)
 Theorem line_sum_is_rounded_product_partial c cur rates l : plain_line l ->
   exists lc, calc_line false c cur rates l = Some lc /\
     let e := exp (line_price c l) in
@@ -48,18 +138,116 @@ Theorem presentation_rounding_error a e : Qabs (toQ (rescale a e) - toQ a) <= (1
 Proof. exact (rescale_error a e). Qed.
 Print Assumptions presentation_rounding_error.
 
-(* FULL CLAIM (C01, last sentence), not proved here:
-     for every document d with d_currency_rule d = false and at most N lines (N "ordinary-sized"),
-     calculate d = Totals t implies, for EVERY presented figure f of t (sum, discount, charge,
-     tax included, total, tax, total with tax, payable, advances, due, every category / rate base
-     and amount, and every line's sum / total),
-        Qabs (toQ (f t) - exact_f d) < unitQ (d_c d)
-     where exact_f d is the same figure computed in exact rational arithmetic (no rounding).
-   PROVED below (_partial): the figures sum, total, total with tax and payable of a PLAIN document:
-   'precise' rule, 1..99 plain lines (see plain_line), no document discounts / charges, no
-   externally supplied rounding; exact_sum = sum over the lines of price x quantity.
-   Missing: line and document discounts and charges, taxes (group / category amounts, included
-   taxes), currency conversions, sub-line breakdowns, advances and due amounts. *)
+(* ------------------------------------------------------------------------------------------ *)
+(* FULL CLAIM, last sentence: under 'precise' no presented total of an ordinary-sized document  *)
+(* is a full minor unit away from the unrounded exact value                                     *)
+(* ------------------------------------------------------------------------------------------ *)
+(* `exact d` is the specification Calc/Ideal.v with NO rounding anywhere.
+   The unrestricted statement is false (precise_error_bound_unrestricted_refuted above: rate x
+   quantity charges, exchange-rate conversions, breakdown prices).  It holds on `simple_doc d`:
+     'precise' rule; at least one line; no line has a breakdown; every item is priced in the
+     document's currency or has an alternative price in it (no exchange-rate conversion); line
+     discounts / charges are fixed amounts or percentages (with or without base) of at most 100%
+     either way, not rate x quantity; document discounts / charges likewise; every tax
+     percentage and surcharge lies between 0% and 100%.  Quantities, prices, amounts and bases are
+     arbitrary (any sign, any decimals); taxes may be included in prices, retained, carry
+     surcharges; any currency precision c.
+   The error is counted in eps c = half a unit of the (c+2)-th decimal = 1/200 minor unit:
+     e_line l   = 1 + 3 x (number of discount and charge rows of l)         (a line total)
+     e_sum ls   = sum of e_line                                              (the document sum)
+     b_drow d   = e_sum + 1                                                  (a document discount / charge row)
+     b_total1 d = e_sum + (#discounts x b_drow + 1) + (#charges x b_drow + 1)
+     b_cats d   = sum over the tax rows (lines, document discounts, document charges) of
+                  (number of tax combos of the row) x (bound of the row + 1)  +  number of combos
+     b_inc d    = b_cats + 1 when prices include a tax, else 0
+     b_total d  = b_total1 + b_inc;  b_tax d = 2 x b_cats;  b_twt d = b_total + b_tax + 1;
+     b_payable d = b_twt + 1;  b_discount d = #discounts x b_drow;  b_charge d = #charges x b_drow;
+     b_advances d = #advances x (b_twt + 1);  b_due d = b_payable + b_advances + 1
+   and every presented total (sum, discount, charge, total, tax, total with tax, payable, advances,
+   due) is within  budget x eps + 1/2 minor unit  of the exact value; the half unit is the
+   presentation rounding.  obound P o o': both absent, or both present and P holds of the distance.
+   "Ordinary-sized" = b_due d < 100, the largest budget (e.g. up to 9 single-rate taxed lines
+   without rows and advances: b_due = 10 N + 6; untaxed: N + 6, up to 93 lines).
+   The tax budget assumes the worst admitted rates (100% plus a 100% surcharge), so it is
+   conservative for real rates.  Advances by percentage: at most 100% either way.
+   Not covered by the bound (only by calc_refines_ideal): the presented figures of the individual
+   lines, discount / charge / advance rows, due-date amounts, category and group amounts. *)
+Theorem precise_error_bound_budget d t : simple_doc d -> calculate d = Totals t ->
+  exists y, exact d = Some y /\
+    let c := d_c d in
+    let P := (1 # 2) * unitQ c in
+    Qabs (toQ (t_sum t) - i_sum y) <= e_sum (d_lines d) * eps c + P /\
+    Qabs (toQ (t_total t) - i_total y) <= b_total d * eps c + P /\
+    Qabs (toQ (t_tax t) - i_tax y) <= b_tax d * eps c + P /\
+    Qabs (toQ (t_twt t) - i_twt y) <= b_twt d * eps c + P /\
+    Qabs (toQ (t_payable t) - i_payable y) <= b_payable d * eps c + P /\
+    obound (fun e => e <= b_discount d * eps c + P) (t_discount t) (i_discount y) /\
+    obound (fun e => e <= b_charge d * eps c + P) (t_charge t) (i_charge y) /\
+    obound (fun e => e <= b_advances d * eps c + P) (t_advances t) (i_advances y) /\
+    obound (fun e => e <= b_due d * eps c + P) (t_due t) (i_due y).
+Proof. exact (IdealBoundProofs.precise_error_bound_budget d t). Qed.
+Print Assumptions precise_error_bound_budget.
+
+Theorem precise_error_bound d t : simple_doc d -> b_due d < 100 -> calculate d = Totals t ->
+  exists y, exact d = Some y /\
+    let u := unitQ (d_c d) in
+    Qabs (toQ (t_sum t) - i_sum y) < u /\
+    Qabs (toQ (t_total t) - i_total y) < u /\
+    Qabs (toQ (t_tax t) - i_tax y) < u /\
+    Qabs (toQ (t_twt t) - i_twt y) < u /\
+    Qabs (toQ (t_payable t) - i_payable y) < u /\
+    obound (fun e => e < u) (t_discount t) (i_discount y) /\
+    obound (fun e => e < u) (t_charge t) (i_charge y) /\
+    obound (fun e => e < u) (t_advances t) (i_advances y) /\
+    obound (fun e => e < u) (t_due t) (i_due y).
+Proof. exact (IdealBoundProofs.precise_error_bound d t). Qed.
+Print Assumptions precise_error_bound.
+
+(* the underlying statement about the specification alone: with and without rounding *)
+Theorem ideal_close_to_exact d x : simple_doc d -> ideal d = Some x ->
+  exists y, exact d = Some y /\
+    let c := d_c d in
+    let P := (1 # 2) * unitQ c in
+    cl (e_sum (d_lines d) * eps c + P) (i_sum x) (i_sum y) /\
+    cl (b_total d * eps c + P) (i_total x) (i_total y) /\
+    cl (b_tax d * eps c + P) (i_tax x) (i_tax y) /\
+    cl (b_twt d * eps c + P) (i_twt x) (i_twt y) /\
+    cl (b_payable d * eps c + P) (i_payable x) (i_payable y) /\
+    ocl (b_discount d * eps c + P) (i_discount x) (i_discount y) /\
+    ocl (b_charge d * eps c + P) (i_charge x) (i_charge y) /\
+    ocl (b_advances d * eps c + P) (i_advances x) (i_advances y) /\
+    ocl (b_due d * eps c + P) (i_due x) (i_due y).
+Proof. exact (spec_close d x). Qed.
+Print Assumptions ideal_close_to_exact.
+
+(* a line with a 10% discount and a fixed charge, a second line, a 5% document discount, a fixed
+   document charge, 21% tax on everything: largest budget b_due = 77 < 100 (an advance would add
+   b_twt + 1 = 76 to the budget of the amount due) *)
+Definition c01_simple_doc : doc :=
+  let vat := mkCombo [Byte.x56] [] [] (Some (mkA 21 2)) None false [] in
+  mkDoc 2 false [] 1
+   [mkLine (mkA 3 0) (mkItem (mkA 3333 4) None []) []
+           [mkLdc (mkA 0 0) (Some (mkA 10 2)) None None None] [mkLdc (mkA 125 3) None None None None] [vat];
+    mkLine (mkA 7 0) (mkItem (mkA 1005 3) None []) [] [] [] [vat]]
+   [mkDdc (mkA 0 0) (Some (mkA 5 2)) None [vat]] [mkDdc (mkA 100 2) None None []] []
+   [] [] None.
+
+Example precise_error_bound_applies :
+  simple_doc c01_simple_doc /\ b_payable c01_simple_doc == 76 /\ b_due c01_simple_doc < 100 /\
+  exists t y, calculate c01_simple_doc = Totals t /\ exact c01_simple_doc = Some y /\
+    t_total t = mkA 866 2 /\ i_total y == 86569145 # 10000000 /\
+    t_twt t = mkA 1026 2 /\ i_twt y == 10264866545 # 1000000000.
+Proof.
+  split; [|split; [vm_compute; reflexivity|split; [vm_compute; reflexivity|]]].
+  - unfold simple_doc, c01_simple_doc, simple_line, simple_row, simple_drow, unconverted, combo_ok, pct_ok, rate_ok.
+    cbn -[Qle Qabs toQ].
+    repeat (split || constructor); try discriminate; try (vm_compute; discriminate).
+  - eexists. eexists. split; [vm_compute; reflexivity|]. split; [vm_compute; reflexivity|].
+    repeat split.
+Qed.
+
+(* the earlier result for PLAIN documents (no discounts, charges, taxes), kept because its size
+   limit is slightly better there (99 lines instead of 93): *)
 Theorem precise_sum_error_bound_partial d : plain_doc d -> (length (d_lines d) <= 99)%nat ->
   exists t, calculate d = Totals t /\
     t_total t = t_sum t /\ t_twt t = t_sum t /\ t_payable t = t_sum t /\
